@@ -331,13 +331,31 @@ class LoopContract:
 
 
 class LoopState:
-    def __init__(self, eng, env, k=None, n=None, seq=None, entry=None):
+    def __init__(self, eng, env, k=None, n=None, seq=None, entry=None, mode="prove"):
         self.eng = eng
         self.env = env
         self.k = k
         self.n = n
         self.seq = seq
         self.entry = entry or {}
+        self.mode = mode          # "prove": quantified clauses are checked on fresh constants; "assume": as forall
+
+    def each(self, ranges, fn, name="e"):
+        """clause `forall x1 in [lo1,hi1), ... . fn(x1,...)`; ranges: list of (lo, hi) with None = unbounded"""
+        e = self.eng
+        xs = [z3.Int(e.uniq(name + str(i))) for i in range(len(ranges))]
+        conds = []
+        for x, (lo, hi) in zip(xs, ranges):
+            if lo is not None:
+                conds.append(x >= to_z3(lo))
+            if hi is not None:
+                conds.append(x < to_z3(hi))
+        rng = z3.And(*conds) if conds else z3.BoolVal(True)
+        if self.mode == "assume":
+            body = e.under(rng, lambda: zb(fn(*[Num(x) for x in xs])))
+            return z3.ForAll(xs, z3.Implies(rng, body))
+        body = e.under(rng, lambda: zb(fn(*[Num(x) for x in xs])))
+        return z3.Implies(rng, body)
 
     def __getattr__(self, name):
         return self.env.lookup(name)
@@ -366,6 +384,7 @@ class LemmaSet:
         self.definedness = "D"
         self.inline_callees = set()
         self.hints = []
+        self.cuts = []
         self.loops = {}
 
     @property
@@ -375,7 +394,7 @@ class LemmaSet:
 
 class Contract:
     def __init__(self, module, qualname, make_args, requires=None, ensures=None, raises=None, loops=None,
-                 summary=None, definedness="D", inline_callees=(), notes="", hints=None, variant=""):
+                 summary=None, definedness="D", inline_callees=(), notes="", hints=None, variant="", cuts=None):
         self.module = module
         self.qualname = qualname
         self.make_args = make_args        # (eng) -> (args dict, ghost dict)
@@ -388,6 +407,7 @@ class Contract:
         self.inline_callees = set(inline_callees)
         self.notes = notes
         self.hints = hints or []          # [(statement prefix, fn(LoopState) -> [(label, term)])]  proved (class S) then assumed
+        self.cuts = cuts or []            # [(statement prefix, fn(LoopState) -> {"ob": [...], "env": {...}, "assume": [...]})]
         self.variant = variant
 
     @property
@@ -436,6 +456,11 @@ class Engine:
         self.scope_id = 0
         self.scope_ctr = 0
         self.assumed_defined = 0
+        self.cut_owner = {}
+        self.cut_hits = set()
+        self.path_axioms = []
+        self.range_guards = {}
+        self.cur_argview = None
         self.quick_ms = 400
         self.defer_sat = True     # models are produced by the external pass (smaller, bounded sizes)
 
@@ -448,6 +473,9 @@ class Engine:
     def new_solver(self):
         s = z3.Solver()
         s.set("timeout", self.feas_timeout_ms)
+        # E-matching only while paths are explored (predictable; "unknown" = feasible / deferred);
+        # the external portfolio (solve_one.py) runs with z3's defaults and cvc5
+        s.set("smt.mbqi", False)
         return s
 
     def assume(self, t):
@@ -459,6 +487,18 @@ class Engine:
         t = zb(t)
         self.solver.add(t)
         self.path_assumptions.append(t)
+
+    def axiom(self, t):
+        """a fact that holds unconditionally (defining property of an uninterpreted symbol introduced by a model):
+        survives the temporary scopes of `under`"""
+        if isinstance(t, bool):
+            if not t:
+                raise Unsupported("false axiom")
+            return
+        t = zb(t)
+        self.solver.add(t)
+        self.path_assumptions.append(t)
+        self.path_axioms.append(t)
 
     def check(self, *extra, timeout=None):
         self.solver.set("timeout", timeout or self.feas_timeout_ms)
@@ -519,6 +559,9 @@ class Engine:
     def oblige(self, label, goal, cls="P", tags=(), detail=None):
         name = "%s.%s" % (self.cur_label(), label)
         goal = zb(goal)
+        gs = self.guards_of(goal)
+        if gs:
+            goal = z3.Implies(z3.And(*gs), goal)
         t0 = time.time()
         status, backend, model = self._prove(goal)
         if self.ext_unknown:
@@ -658,6 +701,7 @@ class Engine:
         self.solver.push()
         n0 = len(self.path_assumptions)
         outer = self.scope_id
+        nax0 = len(self.path_axioms)
         self.scope_ctr += 1
         self.scope_id = self.scope_ctr
         try:
@@ -667,6 +711,9 @@ class Engine:
             self.solver.pop()
             del self.path_assumptions[n0:]
             self.scope_id = outer
+            for ax in self.path_axioms[nax0:]:      # facts about symbols created inside the scope stay valid
+                self.solver.add(ax)
+                self.path_assumptions.append(ax)
 
     def forall(self, n, fn, lo=0, name="q"):
         k = z3.Int(self.uniq(name))
@@ -688,12 +735,44 @@ class Engine:
         return z3.ForAll([i, j], z3.Implies(rng, body))
 
     def fresh_int(self, name, lo=None, hi=None):
+        """fresh integer constant.  With both bounds it stands for "an arbitrary element of [lo, hi)": the range may be
+        empty, so only  (lo < hi) -> lo <= x < hi  is recorded, and every obligation that mentions x is weakened by
+        lo < hi (see oblige) - an empty range must not make the rest of the path vacuous."""
         x = z3.Int(self.uniq(name))
-        if lo is not None:
-            self.assume(x >= to_z3(lo))
-        if hi is not None:
-            self.assume(x < to_z3(hi))
+        if lo is not None and hi is not None:
+            ne = to_z3(lo) < to_z3(hi)
+            if self.must(ne):
+                self.axiom(z3.And(x >= to_z3(lo), x < to_z3(hi)) if self.must_axiom(ne) else z3.Implies(ne, z3.And(x >= to_z3(lo), x < to_z3(hi))))
+            else:
+                self.axiom(z3.Implies(ne, z3.And(x >= to_z3(lo), x < to_z3(hi))))
+                self.range_guards[x.get_id()] = ne
+        elif lo is not None:
+            self.axiom(x >= to_z3(lo))
+        elif hi is not None:
+            self.axiom(x < to_z3(hi))
         return Num(x)
+
+    def must_axiom(self, t):
+        return False
+
+    def guards_of(self, goal):
+        if not self.range_guards:
+            return []
+        out, seen, todo = [], set(), [goal]
+        while todo:
+            x = todo.pop()
+            i = x.get_id()
+            if i in seen:
+                continue
+            seen.add(i)
+            g = self.range_guards.get(i)
+            if g is not None:
+                out.append(g)
+            if z3.is_app(x):
+                todo.extend(x.children())
+            elif z3.is_quantifier(x):
+                todo.append(x.body())
+        return out
 
     def fresh_real(self, name, maybe_inf=False):
         x = z3.Real(self.uniq(name))
@@ -752,6 +831,7 @@ class Engine:
         if func is None or not isinstance(func, PyFunc):
             raise Unsupported("function %s not found in %s" % (contract.qualname, contract.module))
         self._check_loop_fingerprints(func, contract)
+        self._check_hint_patterns(func, contract, mod)
         self.pending = [[]]
         n_paths = 0
         t0 = time.time()
@@ -794,6 +874,21 @@ class Engine:
             V.ENGINE = None
         return [("lemmas", None)]
 
+    def _check_hint_patterns(self, func, contract, mod):
+        """drift check: every statement pattern a hint / cut is keyed on must still occur in the function"""
+        texts = []
+        for n in ast.walk(func.node):
+            if isinstance(n, ast.stmt):
+                try:
+                    seg = (ast.get_source_segment(mod.src, n) or "").strip().split("\n")[0].strip()
+                except Exception:
+                    seg = ""
+                texts.append((seg, ast.unparse(n)))
+        missing = [pat for pat, _f in list(contract.hints) + list(contract.cuts)
+                   if not any(a.startswith(pat) or b.startswith(pat) for a, b in texts)]
+        if missing:
+            raise Unsupported("drift: statement(s) a contract hint / cut is keyed on no longer exist: %s" % missing)
+
     def _check_loop_fingerprints(self, func, contract):
         loops = [n for n in _walk_loops(func.node)]
         for ordn, lc in contract.loops.items():
@@ -820,12 +915,15 @@ class Engine:
         self.top_env = None
         self.extra_probes = {}
         self.ext_unknown = False
+        self.path_axioms = []
+        self.range_guards = {}
         for ax in self.axioms:
             self.solver.add(ax)
         try:
             args, ghost = contract.make_args(self)
             self.ghost = ghost
             a = ArgView(args, ghost, self)
+            self.cur_argview = a
             for item in self.spec_eval(lambda: contract.requires(a)):
                 self.assume(zb(item[1]))
             # vacuity guard: the precondition must be satisfiable
@@ -955,16 +1053,62 @@ class Engine:
         for st in body:
             self.exec(st, env)
 
+    def stmt_text(self, st, env):
+        try:
+            seg = ast.get_source_segment(env.module.src, st)
+        except Exception:
+            seg = None
+        seg = (seg or "").strip().split("\n")[0].strip()
+        return seg, ast.unparse(st)
+
+    def at_cut(self, pat, fn, env):
+        """segment boundary (DESIGN 2.2 `cut`): prove the cut's clauses on the arriving path, then continue *once* from an
+        abstract state that keeps only the parameters and what the cut re-establishes (fresh symbols + assumed clauses)."""
+        res = self.spec_eval(lambda: fn(LoopState(self, env)))
+        pre = tuple(self.decisions[:self.dpos])
+        owner = self.cut_owner.get(pat)
+        if owner is None or owner != pre:
+            for item in res.get("ob", []):
+                self.oblige("cut.%s" % item[0], item[1], cls=(item[2] if len(item) > 2 else "P"), tags=(item[3] if len(item) > 3 else ()))
+        if owner is None:
+            self.cut_owner[pat] = pre
+        elif owner != pre:
+            raise PathEnd()
+        self.cut_hits.add(pat)
+        # restart the path condition: contract requires + what the cut provides
+        self.solver = self.new_solver()
+        self.path_assumptions = []
+        for ax in self.axioms:
+            self.solver.add(ax)
+        for item in self.spec_eval(lambda: self.cur_contract.requires(self.cur_argview)):
+            self.assume(zb(item[1]))
+        func = env.vars.get("__func__")
+        params = [a.arg for a in func.node.args.posonlyargs + func.node.args.args + func.node.args.kwonlyargs]
+        keep = {k: v for k, v in env.vars.items() if k in params or k.startswith("__") or k in res.get("keep", ())}
+        env.vars.clear()
+        env.vars.update(keep)
+        new = res["make"](LoopState(self, env)) if "make" in res else {}
+        env.vars.update(new.get("env", {}))
+        for t in new.get("assume", []):
+            self.assume(t)
+        self.warnings = list(new.get("warnings", []))
+
     def exec(self, st, env):
         m = getattr(self, "x_" + type(st).__name__, None)
         if m is None:
             raise Unsupported("statement %s at line %d" % (type(st).__name__, st.lineno))
+        top = self.call_depth == 1 and self.cur_contract is not None
+        if top and self.cur_contract.cuts:
+            seg, unp = self.stmt_text(st, env)
+            for pat, fn in self.cur_contract.cuts:
+                if seg.startswith(pat) or unp.startswith(pat):
+                    self.at_cut(pat, fn, env)
         r = m(st, env)
-        if self.call_depth == 1 and self.cur_contract is not None and self.cur_contract.hints and \
+        if top and self.cur_contract.hints and \
                 not isinstance(st, (ast.For, ast.While, ast.If, ast.Try)):
-            src = ast.unparse(st)
+            seg, unp = self.stmt_text(st, env)
             for pat, fn in self.cur_contract.hints:
-                if src.startswith(pat):
+                if seg.startswith(pat) or unp.startswith(pat):
                     self.hint_hits.add(pat)
                     for item in self.spec_eval(lambda: fn(LoopState(self, env))):
                         if item[0] == "then":
@@ -1140,7 +1284,7 @@ class Engine:
         mod = _assigned_names(st) | set(lc.havoc)
         arbitrary = self.decide(tag)
         self.havoc(env, mod, lc, st, entry)
-        s1 = LoopState(self, env, entry=entry)
+        s1 = LoopState(self, env, entry=entry, mode="assume")
         for item in self.spec_eval(lambda: lc.inv(s1)):
             self.assume(zb(item[1]))
         c = self.truth(self.eval(st.test, env))
@@ -1203,7 +1347,7 @@ class Engine:
             k = self.fresh_int("k_" + tag)
             self.assume(z3.And(k.t >= 0, k.t < to_z3(n_eff)))
             env.vars["__k_" + tag] = k
-            s1 = LoopState(self, env, k=k, n=n_eff, seq=seq, entry=entry)
+            s1 = LoopState(self, env, k=k, n=n_eff, seq=seq, entry=entry, mode="assume")
             for item in self.spec_eval(lambda: lc.inv(s1)):
                 self.assume(zb(item[1]))
             self.assign(st.target, seq.get(k), env)
@@ -1221,7 +1365,7 @@ class Engine:
                 self.oblige("%s.preserve.%s" % (tag, item[0]), item[1], cls=(item[2] if len(item) > 2 else lc.cls))
             raise PathEnd()
         else:
-            s1 = LoopState(self, env, k=n_eff, n=n_eff, seq=seq, entry=entry)
+            s1 = LoopState(self, env, k=n_eff, n=n_eff, seq=seq, entry=entry, mode="assume")
             for item in self.spec_eval(lambda: lc.inv(s1)):
                 self.assume(zb(item[1]))
             # python leaves the loop variable bound to the last element; not relied upon here
@@ -1341,7 +1485,7 @@ class Engine:
             if key not in obj:
                 self.py_raise("KeyError", str(key))
             return obj[key]
-        if isinstance(obj, models.SymDict):
+        if isinstance(obj, (models.SymDict, models.HKResult)):
             return obj.load(key)
         if isinstance(obj, Obj):
             gi = obj.cls.lookup("__getitem__") if obj.cls else None
@@ -1683,9 +1827,11 @@ class Engine:
                 def mem(v, seq=seq):
                     ce = Env(parent=env)
                     ce.vars[g0.target.id] = v
-                    conds = [b_and(lift(v) >= 0, lift(v) < seq.n)]
+                    inr = b_and(lift(v) >= 0, lift(v) < seq.n)
+                    conds = [inr]
                     for c in g0.ifs:
-                        conds.append(self.as_bool(self.eval(c, ce)))
+                        # the filter is only evaluated for elements of the range
+                        conds.append(self.under(zb(inr), lambda c=c: self.as_bool(self.eval(c, ce))))
                     return b_and(*conds)
                 return models.SymSet(mem)
             if g0.ifs:
